@@ -49,6 +49,10 @@ def run(ctx):
     opt_guard(ctx, lexpr, pt)
     opt_decision(ctx, lexpr, pt)
     subparser_end(ctx, lexpr)
+    # with leading-digit symbols on, a token that is a numeric literal must still be a number: no textual
+    # pre-filter may stand between the token and the numeric sub-parser (shared with C02)
+    from . import c02
+    c02.rescan(ctx, lexpr)
     quote_table(ctx, lexpr, pt)
     c10.close_param(ctx, lexpr, ctx.rule("R-CLOSE-PARAM", "closing delimiters are compared with the opener's partner in "
                                                            "every position, for parentheses and brackets alike"))
